@@ -97,13 +97,15 @@ pub fn plans(ctx: &WorkerCtx) -> Vec<Plan> {
     let big = fam::p_big();
     let mut v = vec![];
     let af = |pairs: bool| -> Box<dyn Fn(&Cfg) -> Alphabet + Sync> { Box::new(move |c: &Cfg| super::c05::alphabet(c.machines.len(), vec![0], pairs)) };
-    v.push(Plan { name: "no machines".into(), cfgs: vec![Cfg::new("[] fw(0.5,0.5)", vec![], 0.5, 0.5)], alpha_for: af(true), opts: Opts { depth: 2, ..base.clone() } });
-    v.push(Plan { name: "P-BIG: heavy-tailed / huge timeouts and durations, extreme RNG words".into(), cfgs: fam::singles(&big, &[(0.0, 0.0)]), alpha_for: af(false), opts: Opts { depth: if q { 2 } else { 3 }, n32: 4, n64: 4, ..base.clone() } });
-    v.push(Plan { name: "one machine".into(), cfgs: fam::singles(&lib, &fr[..1]), alpha_for: af(false), opts: Opts { depth: if q { 3 } else { 5 }, ..base.clone() } });
-    v.push(Plan { name: "two machines, batches of 0..2 events + long batches".into(), cfgs: fam::pairs_strided(&lib, 31, 7, &fr).into_iter().step_by(if q { 3 } else { 1 }).collect(), alpha_for: af(true), opts: Opts { depth: if q { 1 } else { 2 }, ..base.clone() } });
-    v.push(Plan { name: "two machines, singles, deeper".into(), cfgs: fam::pairs_strided(&lib, 17, 5, &fr), alpha_for: af(false), opts: Opts { depth: if q { 2 } else { 4 }, ..base.clone() } });
-    v.push(Plan { name: "all ordered pairs of signal probes (a machine ends, another one signals later)".into(), cfgs: fam::all_pairs(&fam::p_sig(), &fam::p_sig(), &fr[..1]), alpha_for: af(false), opts: Opts { depth: if q { 4 } else { 5 }, ..base.clone() } });
-    v.push(Plan { name: "three machines".into(), cfgs: fam::triples_strided(&lib.iter().step_by(if q { 4 } else { 1 }).cloned().collect::<Vec<_>>(), &fr), alpha_for: af(false), opts: Opts { depth: if q { 2 } else { 3 }, full_positions: 4, ..base.clone() } });
+    v.push(Plan { name: "no machines".into(), cfgs: vec![Cfg::new("[] fw(0.5,0.5)", vec![], 0.5, 0.5)], alpha_for: af(true), opts: Opts { depth: 2, ..base.clone() }, walk: None });
+    v.push(Plan { name: "P-BIG: heavy-tailed / huge timeouts and durations, extreme RNG words".into(), cfgs: fam::singles(&big, &[(0.0, 0.0)]), alpha_for: af(false), opts: Opts { depth: if q { 2 } else { 3 }, n32: 4, n64: 4, ..base.clone() }, walk: None });
+    v.push(Plan { name: "one machine".into(), cfgs: fam::singles(&lib, &fr[..1]), alpha_for: af(false), opts: Opts { depth: if q { 3 } else { 5 }, ..base.clone() }, walk: None });
+    v.push(Plan { name: "two machines, batches of 0..2 events + long batches".into(), cfgs: fam::pairs_strided(&lib, 31, 7, &fr).into_iter().step_by(if q { 3 } else { 1 }).collect(), alpha_for: af(true), opts: Opts { depth: if q { 1 } else { 2 }, ..base.clone() }, walk: None });
+    v.push(Plan { name: "two machines, singles, deeper".into(), cfgs: fam::pairs_strided(&lib, 17, 5, &fr), alpha_for: af(false), opts: Opts { depth: if q { 2 } else { 4 }, ..base.clone() }, walk: None });
+    v.push(Plan { name: "all ordered pairs of signal probes (a machine ends, another one signals later)".into(), cfgs: fam::all_pairs(&fam::p_sig(), &fam::p_sig(), &fr[..1]), alpha_for: af(false), opts: Opts { depth: if q { 4 } else { 5 }, ..base.clone() }, walk: None });
+    let corp = fam::corpus(ctx.seed.wrapping_add(33), if q { 150 } else { 1500 });
+    v.push(Plan { name: "corpus of generated 3-6 state machines (sampled), pairs: BFS plus long random walks".into(), cfgs: fam::pairs_strided(&corp, 31, 7, &fr), alpha_for: af(false), opts: Opts { depth: if q { 1 } else { 2 }, ..base.clone() }, walk: Some((if q { 3 } else { 6 }, 300)) });
+    v.push(Plan { name: "three machines".into(), cfgs: fam::triples_strided(&lib.iter().step_by(if q { 4 } else { 1 }).cloned().collect::<Vec<_>>(), &fr), alpha_for: af(false), opts: Opts { depth: if q { 2 } else { 3 }, full_positions: 4, ..base.clone() }, walk: None });
     v
 }
 
